@@ -220,6 +220,10 @@ def r2_case_analysis(P, rep, ctx):
               message=f"compare feeds the buckets with wrong roles / key sets: {sorted(roles)}")
     mod_st = [i_ for i_, v_, bd in f.stores(f"{rv}.modified[__k]")]
     differs = f.tests("cls.compare(__a, __b, __p) is not None")
+    # only the comparisons of the loop that fills `modified` (the other buckets assert theirs)
+    mod_loops = [enclosing_for(g.nodes[i_].stmt) for i_ in mod_st]
+    in_mod_loops = {id(x) for lp_ in mod_loops if lp_ is not None for x in ast.walk(lp_)}
+    differs = [e for e in differs if id(g.nodes[e[0]].stmt) in in_mod_loops]
     okm = bool(mod_st) and bool(differs) and f.all_hit_before(mod_st, edges=differs)
     for i_ in mod_st:
         loop = enclosing_for(g.nodes[i_].stmt)
